@@ -1,5 +1,71 @@
-"""atheris (coverage-guided) engines; filled in later."""
+"""Driver for the atheris (libFuzzer) campaigns: one subprocess per campaign, fresh corpus
+directory, -seed from VERIF_SEED, -runs bounded; results merged into the Run."""
+import glob
+import json
+import os
+import re
+import shutil
+import subprocess
+import tempfile
+
+from vf import common
 
 
-def run_atheris(run, target, runs):
-    run.stats.notes.append(f"atheris target {target} not run (engine not built yet)")
+def _campaign(args):
+    target, runs, seed_value, seeded, max_len = args
+    out = tempfile.mkdtemp(prefix=f"vf_fuzz_{target}_")
+    corpus = os.path.join(out, "corpus")
+    os.makedirs(corpus)
+    if seeded:
+        for path in glob.glob(os.path.join(common.VERIF, "fuzz", f"seeds_{target}", "*")):
+            shutil.copy(path, corpus)
+    env = dict(os.environ, VF_FUZZ_OUT=out, PYTHONPATH=os.path.join(common.VERIF, ".deps"), PYTHONHASHSEED="0")
+    cmd = ["/venv/bin/python", os.path.join(common.VERIF, "fuzz", "target.py"), target, corpus,
+           f"-runs={runs}", f"-seed={seed_value or 1}", f"-max_len={max_len}", f"-artifact_prefix={out}/", "-print_final_stats=1"]
+    try:
+        proc = subprocess.run(cmd, capture_output=True, text=True, env=env, timeout=3600)
+        text = proc.stdout + proc.stderr
+        result = {"target": target, "seeded": seeded, "returncode": proc.returncode, "violations": [], "evaluations": 0, "nontrivial": [], "samples": [], "cov": None}
+        m = re.findall(r"cov: (\d+)", text)
+        if m:
+            result["cov"] = int(m[-1])
+        m = re.search(r"stat::number_of_executed_units: (\d+)", text)
+        executed = int(m.group(1)) if m else 0
+        stats_path = os.path.join(out, "stats.json")
+        if os.path.exists(stats_path):
+            st = json.load(open(stats_path, encoding="utf-8"))
+            result.update(nontrivial=st["nontrivial"], samples=st["samples"])
+        result["evaluations"] = executed
+        for path in glob.glob(os.path.join(out, "violation-*.json")):
+            result["violations"].append(json.load(open(path, encoding="utf-8")))
+        if proc.returncode != 0 and not result["violations"]:
+            result["error"] = text[-1500:]
+        return result
+    finally:
+        shutil.rmtree(out, ignore_errors=True)
+
+
+def available():
+    return os.path.isdir(os.path.join(common.VERIF, ".deps", "atheris"))
+
+
+def run_atheris(run, target, runs, max_len=256):
+    """Two campaigns (empty corpus, seeded corpus), merged into run.stats."""
+    if not available():
+        run.stats.notes.append("atheris not installed (./setup.sh) - coverage-guided campaign skipped")
+        return
+    jobs = [(target, runs, common.seed(), False, max_len), (target, runs, common.seed() + 1, True, max_len)]
+    for res in common.pool_map(_campaign, jobs, procs=2):
+        label = f"atheris-{target}-{'seeded' if res['seeded'] else 'empty'}"
+        run.stats.evaluations += res["evaluations"]
+        run.stats.nontrivial |= set(res["nontrivial"])
+        run.stats.label(label + "-executions", res["evaluations"])
+        if res.get("cov") is not None:
+            run.stats.label(label + "-coverage-edges", res["cov"])
+        for s in res["samples"]:
+            if len(run.stats.samples) < 6:
+                run.stats.samples.append(s)
+        for v in res["violations"]:
+            run.stats.violation(v["clause"], v["case"], "[atheris] " + v["detail"])
+        if res.get("error"):
+            raise common.HarnessError(f"atheris campaign {label} failed: {res['error']}")
